@@ -205,22 +205,24 @@ type caller struct {
 	isRetry          bool
 	invoked          bool
 
-	inv, ret     uint64
-	invAt, retAt time.Duration
-	hasOwnLimit  bool
-	ownLimitAt   time.Duration // deadline / planned cancel instant
-	dpt          time.Duration // dial-peer timeout in force
-	cancelled    bool          // cancel() was called while DialPeer had not returned
-	cancelStamp  uint64
-	cancelAt     time.Duration
-	returned     bool
-	ok           bool
-	err          error
-	ctxErr       error // the caller's own context when DialPeer returned
-	connPeer     peer.ID
-	connAddr     string
-	connLimited  bool
-	connProxy    bool
+	inv, ret      uint64
+	invAt, retAt  time.Duration
+	hasOwnLimit   bool
+	ownLimitAt    time.Duration // deadline / planned cancel instant
+	dpt           time.Duration // dial-peer timeout in force
+	cancelled     bool          // cancel() was called while DialPeer had not returned
+	cancelStamp   uint64
+	cancelAt      time.Duration
+	returned      bool
+	ok            bool
+	err           error
+	ctxErr        error // the caller's own context when DialPeer returned
+	connPeer      peer.ID
+	connAddr      string
+	connLimited   bool
+	connProxy     bool
+	connID        string
+	invokedOnDisc bool // called from inside a Disconnected handler
 }
 
 func (c *caller) name() string { return fmt.Sprintf("caller%d.%d", c.round, c.idx) }
@@ -292,7 +294,7 @@ var ctxGrid = []time.Duration{time.Millisecond, 30 * time.Millisecond, 250 * tim
 func run(t *testing.T, tape *simrt.Tape) *common.Outcome {
 	g := simrt.Gen{S: tape.G}
 	o := &common.Outcome{}
-	w := &world{o: o, targets: map[string]*target{}, dns: map[string]dnsEntry{}, dnsSeen: map[string]bool{}, udpLost: map[string]int{}}
+	w := &world{o: o, targets: map[string]*target{}, dns: map[string]dnsEntry{}, dnsSeen: map[string]bool{}, udpLost: map[string]int{}, conns: map[string]*connRec{}}
 
 	// ---- configuration (0 = simplest) --------------------------------------------------------
 	// stratum first: QUIC (the /quic-v1 addresses are dialed by the REAL QUIC transport over simnet's UDP wire and
@@ -333,6 +335,23 @@ func run(t *testing.T, tape *simrt.Tape) *common.Outcome {
 			for i := 0; i < 2; i++ {
 				punchCancels = append(punchCancels, punchGrid[1+g.Int(len(punchGrid)-1)])
 			}
+		}
+	}
+	// "connections vanish" stratum (1/4, not together with hole punching): connections of D are closed WHILE
+	// callers are inside — by a Connected notifiee on D (at once | after 1 ms | 30 ms), by a task closing what D
+	// lists for p0 at drawn instants, or by p0 closing its side at drawn instants; p0 gets a cleanly served TCP
+	// address and at least three callers starting at one instant, so that requests join a worker whose
+	// tracked dial already produced — and lost — a connection.
+	vanish := 0
+	var vanishAt []time.Duration
+	vanishDelay := time.Duration(0)
+	redial, redials := false, 0
+	if !w.punch && g.Chance(1, 4) {
+		redial = g.Bool()
+		vanish = 1 + g.Int(4) // 1 notifiee at once, 2 notifiee delayed, 3 local close task, 4 remote close task
+		vanishDelay = []time.Duration{time.Millisecond, 30 * time.Millisecond}[g.Int(2)]
+		for i, n := 0, 1+g.Int(3); i < n; i++ {
+			vanishAt = append(vanishAt, startGrid[g.Int(7)])
 		}
 	}
 	noise := g.Chance(1, 4)
@@ -396,6 +415,15 @@ func run(t *testing.T, tape *simrt.Tape) *common.Outcome {
 	}
 	if backoffRejoin {
 		w.plantBackoffPair(g, w.peers[0])
+	}
+	if vanish != 0 {
+		allFail = false
+		ps := w.peers[0]
+		tg := &target{kind: tTCP, key: canon("/ip4/10.1.3.1/tcp/4001"), peer: 0, ip: "10.1.3.1", port: 4001, script: sSucceed}
+		w.targets[tg.key] = tg
+		ps.targets = append(ps.targets, tg)
+		ps.known[tg.key] = true
+		ps.raw = append(ps.raw, tg.key)
 	}
 	if w.punch {
 		// the punched address is p0's NODE address: the node dials D from the socket listening there (quicreuse
@@ -466,6 +494,15 @@ func run(t *testing.T, tape *simrt.Tape) *common.Outcome {
 				*cs[1] = c
 			}
 		}
+		if vanish != 0 {
+			for len(cs) < 3 {
+				cs = append(cs, &caller{round: r, idx: len(cs), ctxKind: g.Weighted(3, 1), ctxDur: 5 * time.Second})
+			}
+			at := startGrid[g.Int(5)]
+			for _, c := range cs[:3] {
+				c.peer, c.start = 0, at
+			}
+		}
 		if w.punch && r == 0 {
 			for len(cs) < 2 {
 				cs = append(cs, &caller{round: r, idx: len(cs)})
@@ -514,6 +551,7 @@ func run(t *testing.T, tape *simrt.Tape) *common.Outcome {
 	}
 	o.Logf("quic=%v udp=%+v punch=%v dialerListensQUIC=%v reuseportOff=%v targetDialsDialerAt=%v directDuplicatePunch=%v",
 		w.quic, udp, w.punch, dListenQUIC, w.reuseOff, targetDials, directDup)
+	o.Logf("connections vanish: mode=%d (1 notifiee at once, 2 notifiee after %v, 3 local close at %v, 4 remote close at %v) redialFromDisconnected=%v", vanish, vanishDelay, vanishAt, vanishAt, redial)
 	o.Logf("security=%s exact=%v allFail=%v stall=%d latency=%v perPeerCap=%d fdCap=%d rounds=%d gap=%v keepConns=%v slowWorker=%v backoffRejoin=%v",
 		secu, exact, allFail, stall, latency, perPeerCap, fdCap, nRounds, gap, keepConns, slowWorker, backoffRejoin)
 	for _, ps := range w.peers {
@@ -713,10 +751,29 @@ func run(t *testing.T, tape *simrt.Tape) *common.Outcome {
 		simrt.WaitIdle()
 		base := goroutines()
 
+		var callFn func(c *caller)
+		extraLeft := 0
+		inRound := false // re-dials only while the round's callers are inside (not during the audit's closes)
+		// an application that re-dials from inside its Disconnected handler: the call begins after the connection is
+		// gone and, often, before the caller that was answered with it has released the dial worker
+		w.onDisc = func(peer int) {
+			if !redial || !inRound || callFn == nil || redials >= 3 || peer < 0 {
+				return
+			}
+			c := &caller{round: 80, idx: redials, peer: peer, ctxKind: 1, ctxDur: 5 * time.Second, invokedOnDisc: true}
+			redials++
+			callers = append(callers, c)
+			extraLeft++
+			simrt.GoNamed(c.name(), func() {
+				callFn(c)
+				extraLeft--
+			})
+		}
 		runCallers := func(cs []*caller, bound time.Duration) bool {
 			done := make(chan struct{})
 			left := len(cs)
-			call := func(c *caller) {
+			var call func(c *caller)
+			call = func(c *caller) {
 				ctx := context.Background()
 				if c.forceDirect {
 					ctx = network.WithForceDirectDial(ctx, "c05")
@@ -763,12 +820,14 @@ func run(t *testing.T, tape *simrt.Tape) *common.Outcome {
 					c.ok = err == nil
 					c.connPeer = conn.RemotePeer()
 					c.connAddr = conn.RemoteMultiaddr().String()
+					c.connID = conn.ID()
 					c.connLimited = conn.Stat().Limited
 					_, err := conn.RemoteMultiaddr().ValueForProtocol(ma.P_CIRCUIT)
 					c.connProxy = err == nil
 				}
 				cancel()
 			}
+			callFn = call
 			for _, c := range cs {
 				simrt.GoNamed(c.name(), func() {
 					if c.start > 0 {
@@ -800,6 +859,11 @@ func run(t *testing.T, tape *simrt.Tape) *common.Outcome {
 			bound = 24 * time.Hour
 		}
 
+		nf := &noti{w: w, delay: vanishDelay}
+		if vanish == 1 || vanish == 2 {
+			nf.mode = vanish
+		}
+		D.swarm.Notify(nf)
 		sideLeft := 0
 		sideDone := make(chan struct{})
 		side := func(name string, f func()) {
@@ -822,6 +886,24 @@ func run(t *testing.T, tape *simrt.Tape) *common.Outcome {
 				targetDialLog = append(targetDialLog, fmt.Sprintf("p0 dials D at %v: returned at %v err=%v", at, simrt.Now(), err))
 			})
 		}
+		if vanish == 3 || vanish == 4 {
+			for i, d := range vanishAt {
+				side(fmt.Sprintf("conn-closer%d", i), func() {
+					simrt.TimeSleep(d)
+					if vanish == 3 {
+						for _, c := range D.swarm.ConnsToPeer(w.ids[0]) {
+							w.conn(c).closedBy = "local close task"
+							c.Close()
+						}
+					} else {
+						for _, c := range D.swarm.ConnsToPeer(w.ids[0]) {
+							w.conn(c).closedBy = "remote close task"
+						}
+						T[0].Swarm.ClosePeer(D.id)
+					}
+				})
+			}
+		}
 		if directDup && D.qt != nil {
 			// two overlapping hole punches to one (address, peer) handed to the transport itself: the second is
 			// turned away ("already punching hole"); both must give back what they took
@@ -839,7 +921,17 @@ func run(t *testing.T, tape *simrt.Tape) *common.Outcome {
 			}
 		}
 		for r, cs := range rounds {
-			if !runCallers(cs, bound) {
+			inRound = true
+			ok := runCallers(cs, bound)
+			inRound = false
+			if !ok {
+				timedOut = true
+				return
+			}
+			for i := 0; extraLeft > 0 && i < 200; i++ {
+				simrt.TimeSleep(100 * time.Millisecond) // re-dials started from Disconnected handlers (5 s deadline)
+			}
+			if extraLeft > 0 {
 				timedOut = true
 				return
 			}
@@ -1153,6 +1245,35 @@ func run(t *testing.T, tape *simrt.Tape) *common.Outcome {
 		}
 	}
 	probes(o, w, callers, perPeerCap, fdCap)
+	for _, cr := range w.connOrder {
+		if cr.disc == 0 || cr.peer < 0 {
+			continue
+		}
+		inside := false
+		for _, c := range callers {
+			if c.peer == cr.peer && c.returned && !c.probe && c.inv < cr.disc && cr.disc < c.ret {
+				inside = true
+			}
+		}
+		if inside {
+			o.Fault("conn-closed-while-callers-inside")
+		}
+		for _, c := range callers {
+			if c.peer != cr.peer || !c.returned || c.probe || c.inv < cr.disc {
+				continue
+			}
+			// another caller kept the worker alive from before the close until after this invocation
+			for _, x := range callers {
+				if x != c && x.peer == c.peer && x.returned && x.inv < cr.seen && x.ret > c.inv {
+					o.Probe("caller-invoked-after-close-while-worker-alive")
+					if c.ok && c.connID != cr.id {
+						o.Probe("caller-invoked-after-close-got-another-connection")
+					}
+					break
+				}
+			}
+		}
+	}
 	if w.punch {
 		// hole-punch sub-stratum
 		for _, r := range w.recs {
@@ -1259,6 +1380,16 @@ func checkCaller(o *common.Outcome, w *world, c *caller, callers []*caller, exac
 		}
 		if c.forceDirect && (c.connLimited || c.connProxy) {
 			o.Violate("C05/force-direct-got-relayed", "%s asked for a direct connection and got limited=%v proxy=%v", c.name(), c.connLimited, c.connProxy)
+		}
+		// (2c) usable connection: not one whose Disconnected notification had been delivered before this call
+		// began (a close that races with the call is legitimate: it may land after the answer was chosen)
+		if cr := w.conns[c.connID]; cr != nil && cr.disc != 0 && cr.disc < c.inv {
+			kind := "tcp"
+			if strings.Contains(c.connAddr, "/quic") {
+				kind = "quic"
+			}
+			o.Violate("C05/returned-connection-closed-before-call/"+kind, "%s (invoked at stamp %d) got connection %s over %s with a nil error, but Disconnected for that connection had been delivered at stamp %d (closed by: %s)",
+				c.name(), c.inv, cr.id, c.connAddr, cr.disc, cr.closedBy)
 		}
 		if tg := w.targets[c.connAddr]; tg != nil && (tg.script == sWrongPeer || tg.script == sLie) {
 			o.Violate("C05/connection-to-wrong-peer", "%s got a connection to %s, which is served by another peer", c.name(), c.connAddr)
@@ -1525,6 +1656,9 @@ func checkSharedSuccess(o *common.Outcome, w *world, callers []*caller, enabled 
 			if b == a || b.probe || b.peer != a.peer || !b.returned || b.invAt >= a.retAt || b.ret < a.ret {
 				continue
 			}
+			if cr := w.conns[a.connID]; cr != nil && cr.disc != 0 && cr.disc < b.ret {
+				continue // the connection A got vanished while B was still inside: B may need a new dial
+			}
 			o.Probe("shared-success-asserted")
 			if b.retAt > a.retAt+dnsSlack(w, a.peer, n)+time.Second {
 				o.Violate("C05/connection-obtained-but-caller-kept-waiting", "%s got a connection over %s at %v; %s (invoked %v, same peer) was waiting then and returned only at %v with: %v",
@@ -1655,7 +1789,20 @@ func checkRecords(o *common.Outcome, w *world, callers []*caller, perPeerCap, fd
 					boundary = true
 				}
 			}
-			if !boundary {
+			// replacing a dead result is not a duplicate attempt: the earlier dial succeeded and the connection it
+			// produced (Connected delivered after that dial returned) was gone before the second hand-over began
+			replaced := false
+			if d1.ok {
+				for _, cr := range w.connOrder {
+					if cr.peer == d1.peer && cr.addr == d1.addr && cr.seen > d1.end && cr.disc != 0 && cr.disc < d2.start {
+						replaced = true
+					}
+				}
+			}
+			if !boundary && replaced {
+				o.Probe("address-redialed-after-its-connection-closed")
+			}
+			if !boundary && !replaced {
 				o.Violate("C05/address-dialed-twice-in-generation/"+kindName[d1.kind], "no caller of p%d returned between %v and %v (so the worker that started the first dial was still alive, its context was not cancelled), yet the address was handed to the transport twice: [%s] and [%s]",
 					d1.peer, d1.startAt, d2.startAt, d1, d2)
 			}
